@@ -11,7 +11,7 @@ SPECIAL = ['http', 'https', 'ws', 'wss', 'ftp', 'file']
 SCHEMES = SPECIAL + ['a', 'non-special', 'blob', 'mailto', 'git+ssh', 'x.y', 'HTTP', 'hTtPs', 'FILE', 'javascript', 'data']
 LENS = [0, 1, 2, 3, 7, 8, 9, 15, 16, 17, 31, 32, 33, 47, 48, 49, 64]
 
-HOSTS = ['example.com', 'EXAMPLE.COM', 'a', 'a.b', 'localhost', 'LOCALHOST', '127.0.0.1', '1.2.3.4', '0x7f.1', '0x7F000001',
+HOSTS = ['', '', 'example.com', 'EXAMPLE.COM', 'a', 'a.b', 'localhost', 'LOCALHOST', '127.0.0.1', '1.2.3.4', '0x7f.1', '0x7F000001',
          '017700000001', '1.2.3', '1.2', '1', '256', '1.2.3.256', '1.2.3.4.5', '1.2.3.4.', '1..2', '0x', '0x.', '08', '0.08',
          '4294967295', '4294967296', '0xffffffff', '0x100000000', '1.0xffffff', '1.0x1000000', '1.2.0xffff', '1.2.65536',
          '1.2.3.0xff', 'a.1', '1.a', 'a.0x1', 'a.08', 'a.1.', 'a..1', '.1', '1.', '09', '0X10', '00000000000000000001',
@@ -25,7 +25,7 @@ HOSTS = ['example.com', 'EXAMPLE.COM', 'a', 'a.b', 'localhost', 'LOCALHOST', '12
          'a.b.', '%31%32%37.0.0.1', '1%2e2%2e3%2e4', '0%78ff', '%30x1', '\u00e9', 'a\u00adb', '\uff21', 'a\u3002b']
 USERS = ['', 'u', 'user', 'u:p', 'user:pass', ':p', 'u:', ':', 'u@v', 'u:p@q', 'a b', 'a%20b', 'a%', '%41', 'u/', 'u;=', 'u[]', 'u|',
          '\u00e9', 'u^`{}', "u'\"", 'u<>', 'u?', 'u#']
-PORTS = ['', '0', '1', '80', '443', '21', '8080', '65535', '65536', '99999', '100000', '00080', '0000000000080', '080', '8a', 'a', '-1',
+PORTS = ['', '0', '1', '9', '10', '99', '100', '999', '1000', '8191', '8192', '8443', '9999', '10000', '16383', '16384', '32767', '32768', '80', '443', '21', '8080', '65535', '65536', '99999', '100000', '00080', '0000000000080', '080', '8a', 'a', '-1',
          '+1', ' 80', '80 ', '1e3', '4294967377', '18446744073709551696']
 SEGS = ['', 'a', 'b', '.', '..', '%2e', '%2E', '.%2e', '%2e.', '%2E%2e', '...', 'a b', 'a%20b', 'a%', 'a%2', 'a%zz', 'C:', 'C|', 'c:', 'c|',
         'C:x', 'CC:', '1:', 'a?b', 'a#b', 'a\\b', 'a"b', 'a<b>', 'a`b', 'a{b}', 'a^b', 'a|b', "a'b", 'a;b', 'a=b', 'a@b', 'a:b', 'a[b]',
@@ -41,7 +41,7 @@ BASES = [None, 'http://example.org/foo/bar', 'http://u:p@h:8080/a/b/c?q#f', 'htt
          'ftp://u@h/x;type=a', 'a://u:p@h:9/pa/th']
 RELS = ['', 'x', '/x', '//h2/p', '?q', '#f', '.', '..', '../..', './x', '../x', '//', '///', '////x', '\\x', '\\\\h3\\p', '/\\h4', 'x/../y', '?', '#',
         'C:', 'C|/x', '/C:/x', '//C:/x', 'c:\\x', 'http:x', 'http:/x', 'http://h5', 'https:x', 'file:x', 'file:/x', 'file://h6/x', 'a:x', 'x:y',
-        ':x', 'x?y#z', '%2e%2e/x', '/..//x', '/.//x', '//@h7', '//u@h8:1', '//h9:80', '//h:x', ' x ', '\tx', 'x\n', '/a/./b/../c', ';x', 'x;y']
+        ':x', 'x?y#z', '%2e%2e/x', '/..//x', '/.//x', '//@h7', '//u@h8:1', '//u:p@/x', '//u@', '//@', '//u@:8/', '//h9:80', '//h:x', ' x ', '\tx', 'x\n', '/a/./b/../c', ';x', 'x;y']
 WS = ['', '', '', ' ', '\t', '\n', '\r', ' \t', '\x00', '\x1f', '\x0b']
 
 
@@ -177,9 +177,37 @@ VALUES = {
 }
 
 
+DEFAULT_PORTS = {'http': '80', 'https': '443', 'ws': '80', 'wss': '443', 'ftp': '21'}
+
+
+def case_variant(rng, s):
+    return ''.join(c.upper() if rng.random() < 0.5 else c for c in s)
+
+
+def scheme_switch(ops, rng):
+    """set_protocol between special schemes while the port is (or is not) the NEW scheme's default port,
+    with the scheme name in every case mix, with / without the trailing ':' (the refusal / port-dropping rules)"""
+    s1, s2 = rng.choice(list(DEFAULT_PORTS)), rng.choice(list(DEFAULT_PORTS) + ['file', 'a'])
+    port = rng.choice([DEFAULT_PORTS.get(s2, '80'), DEFAULT_PORTS[s1], '8080', '', '65535'])
+    ops.parse(1, 0, '%s://%sh.example%s/p?q#f' % (s1, rng.choice(['', 'u:p@', 'u@']), ':' + port if port else ''))
+    if rng.random() < 0.4:
+        ops.set(1, 'port', rng.choice([DEFAULT_PORTS.get(s2, '80'), '0' + DEFAULT_PORTS.get(s2, '80'), '81']))
+    v = case_variant(rng, s2) if rng.random() < 0.7 else s2
+    ops.set(1, 'protocol', v + rng.choice(['', ':', '://x', ':80']))
+    ops.reparse(1)
+    ops.parse(3, 1, rng.choice(RELS))
+    if rng.random() < 0.5:
+        ops.set(1, 'port', rng.choice([DEFAULT_PORTS.get(s2, '80'), DEFAULT_PORTS[s1], '']))
+        ops.set(1, 'protocol', case_variant(rng, s1))
+        ops.reparse(1)
+
+
 def history_workload(ops, rng, n, depth=12):
     for i in range(n):
         ops.reset()
+        if rng.random() < 0.1:
+            scheme_switch(ops, rng)
+            continue
         start = rng.choice(STARTS) if rng.random() < 0.7 else gen_absolute(rng)
         ops.parse(1, 0, start)
         k = rng.randrange(1, depth + 1)
